@@ -53,8 +53,7 @@ def run_one(sid, tier, props_override=None):
         for p in props:
             e = dict(os.environ, VERIF_REPO=wt)
             r = sh(["python3", os.path.join(HERE, "check.py"), p, "--tier", tier], env=e, cwd=HERE)
-            lines = ([l for l in r.stdout.splitlines() if l.startswith(("VIOLATION", "OK", "INFRA"))]
-                     or [l for l in r.stdout.splitlines() if l.startswith("KNOWN")])
+            lines = [l for l in r.stdout.splitlines() if l.startswith(("VIOLATION", "OK", "INFRA"))]
             detail = [l for l in r.stdout.splitlines() if l.startswith("  ")][:2]
             out["checks"][p] = dict(rc=r.returncode, line=(lines[0] if lines else r.stdout[-300:]), detail=detail)
     finally:
